@@ -176,6 +176,7 @@ func Load(cfg Config) (*Prog, error) {
 	aliasOf = map[*ssa.Function]string{}
 	inlinableSet = map[*ssa.Function]bool{} // anchors are resolved on the plain decomposition
 	computeNonNilGlobals(p)
+	computeConstTables(p)
 	// resolve anchors
 	aliasOf = map[*ssa.Function]string{}
 	canonFn = map[string]*ssa.Function{}
